@@ -177,3 +177,44 @@ theorem genmp_rlk_finish (o : Ops α) (pa : α → α → R α) (K : Nat) (P0 P1
         · simp [h1, h2, Nat.lt_succ_of_lt h2]
         · have : ¬ j < i + 1 := by omega
           simp [h1, h2, this]
+
+/-! ### the relin protocol's `receive_step1` / `receive_step2`: h0 objects first, then h1 objects, one polynomial each, same slot -/
+
+/-- what `receive` does to one object when the sender's slot exists -/
+def putSlot (sender : Nat) (p : Reveal α) (m : α) : Reveal α := { p with slots := p.slots.set sender (some m) }
+
+theorem genmp_mapStream_receive (sender : Nat) : ∀ (ps : List (Reveal α)) (ms : List α) (rest : List α),
+    ms.length = ps.length → (∀ p ∈ ps, sender < p.slots.length) →
+    mapStreamM (fun r s => GenMp.reveal_receive r sender s) ps (ms ++ rest) = .ok (List.zipWith (putSlot sender) ps ms, rest) := by
+  intro ps
+  induction ps with
+  | nil => intro ms rest hl _; cases ms with
+    | nil => rfl
+    | cons m ms => simp at hl
+  | cons p ps ih =>
+    intro ms rest hl hs
+    cases ms with
+    | nil => simp at hl
+    | cons m ms =>
+      have hp : sender < p.slots.length := hs p (List.mem_cons_self ..)
+      have hr : GenMp.reveal_receive p sender (m :: (ms ++ rest)) = .ok (putSlot sender p m, ms ++ rest) := by
+        rw [genmp_reveal_receive]; simp [Reveal.receive, hp, putSlot, genmp_ok_bind, pure, Except.pure]
+      simp only [List.cons_append, mapStreamM, hr, List.zipWith_cons_cons,
+        ih ms rest (by simpa using hl) (fun q hq => hs q (List.mem_cons_of_mem _ hq))]
+
+theorem genmp_rlk_receive_step1 (sender : Nat) (h0d h1d : List (Reveal α)) (m0 m1 rest : List α)
+    (hl0 : m0.length = h0d.length) (hl1 : m1.length = h1d.length)
+    (hs0 : ∀ p ∈ h0d, sender < p.slots.length) (hs1 : ∀ p ∈ h1d, sender < p.slots.length) :
+    GenMp.rlk_receive_step1 h0d h1d sender (m0 ++ (m1 ++ rest))
+      = .ok (List.zipWith (putSlot sender) h0d m0, List.zipWith (putSlot sender) h1d m1, rest) ∧
+    GenMp.rlk_receive_step2 h0d h1d sender (m0 ++ (m1 ++ rest))
+      = .ok (List.zipWith (putSlot sender) h0d m0, List.zipWith (putSlot sender) h1d m1, rest) := by
+  unfold GenMp.rlk_receive_step1 GenMp.rlk_receive_step2
+  simp only [genmp_mapStream_receive sender h0d m0 _ hl0 hs0, genmp_mapStream_receive sender h1d m1 _ hl1 hs1, genmp_ok_bind]
+  exact ⟨rfl, rfl⟩
+
+/-- the message of `send_step1` / `send_step2` is exactly what `receive_step1` / `receive_step2` of the other parties consume:
+    the own polynomials of the h0 objects, then those of the h1 objects -/
+theorem genmp_rlk_send (h0d h1d : List (Reveal α)) :
+    GenMp.rlk_send_step1 h0d h1d = h0d.map Reveal.own ++ h1d.map Reveal.own ∧
+    GenMp.rlk_send_step2 h0d h1d = h0d.map Reveal.own ++ h1d.map Reveal.own := ⟨rfl, rfl⟩
